@@ -134,6 +134,18 @@ def mk_variant(adt, variant, fields):
 TABLES = {}
 
 
+class Sym:
+    """a value the interpreter does not compute with but keeps as an expression over the values it was built from (floating
+    point results): rules compare the expression, never a number"""
+    __slots__ = ("expr",)
+
+    def __init__(self, expr):
+        self.expr = expr
+
+    def __repr__(self):
+        return "<sym %r>" % (self.expr,)
+
+
 class PyIter:
     """an iterator value of std (slice iterators, ranges and the adaptors over them): `step(it)` yields the next item or raises
     StopIteration.  Adaptors are modelled by their documented behaviour; closures are applied through Interp.apply_callable."""
@@ -204,6 +216,31 @@ class PyIter:
                 raise StopIteration
             p[1] -= 1
             return p[0].step(it, fr, t, depth)
+        if k == "take_while":
+            if p[2]:
+                raise StopIteration
+            x = p[0].step(it, fr, t, depth)
+            holder = Frame({"path": "<item>", "locals": []}, {})
+            holder.locals[0] = x
+            keep = it.apply_callable(p[1], [Ref(holder, 0, [])], fr, t, depth)
+            c = keep.const() if isinstance(keep, AI) else None
+            if c is None:
+                raise Undecided("take_while predicate")
+            if not c:
+                p[2] = True
+                raise StopIteration
+            return x
+        if k == "map_while":
+            if p[2]:
+                raise StopIteration
+            x = p[0].step(it, fr, t, depth)
+            r = it.apply_callable(p[1], [x], fr, t, depth)
+            if isinstance(r, Agg) and r.variant == "Some":
+                return r.fields[0]
+            if isinstance(r, Agg) and r.variant == "None":
+                p[2] = True
+                raise StopIteration
+            raise Undecided("map_while result")
         if k == "step_by":
             if not p[2]:
                 for _ in range(p[1] - 1):
@@ -298,6 +335,10 @@ class Interp:
             return Agg("tuple", None, None, None, [r, ov])
         if op.endswith("Unchecked"):
             op = op[:-9]
+        if isinstance(x, Sym) or isinstance(y, Sym):
+            if op in ("Add", "Sub", "Mul", "Div"):
+                return Sym((op, x, y))
+            raise Undecided("comparison of floating point values")
         if op in ("Lt", "Le", "Gt", "Ge", "Eq", "Ne"):
             return self.compare(op, x, y)
         if op == "Cmp":
@@ -763,6 +804,8 @@ class Interp:
             v = o["value"]
             v = int(v) if not isinstance(v, bool) else int(v)
             return AI(ty, v, v)
+        if ty in ("f64", "f32"):
+            return Sym(("const", o.get("text") or o.get("value")))
         if "uneval" in o:
             return self.named_const(fr, o, ty)
         if "str" in o:
@@ -842,6 +885,8 @@ class Interp:
         if k == "binop":
             a, b = self.operand(fr, rv["a"]), self.operand(fr, rv["b"])
             ty = self.resolve_ty(fr, rv["a_ty"])
+            if ty in ("f64", "f32") or isinstance(a, Sym) or isinstance(b, Sym):
+                return self.binop(rv["op"], a if isinstance(a, Sym) else Sym(("float", a)), b if isinstance(b, Sym) else Sym(("float", b)), "u64")
             if ty not in TY:
                 raise Unsupported("binop on %s" % ty)
             return self.binop(rv["op"], a, b, ty)
@@ -857,6 +902,10 @@ class Interp:
             kind = rv["kind"]
             if kind == "IntToInt":
                 return self.cast(v, self.resolve_ty(fr, rv["ty"]))
+            if kind == "IntToFloat":
+                return Sym(("float", v))
+            if kind in ("FloatToFloat",) and isinstance(v, Sym):
+                return v
             if kind.startswith("PointerCoercion(Unsize"):
                 if isinstance(v, Ref):
                     arr = self.project(v.frame, v.frame.locals.get(v.local), v.proj)
@@ -1169,12 +1218,67 @@ class Interp:
                 return UNIT
             if last == "is_empty":
                 return AI("bool", int(end == start), int(end == start))
+            if last == "windows":
+                k = args[1].const() if isinstance(args[1], AI) else None
+                if not k:
+                    raise Panic("window size 0") if k == 0 else Undecided("window size")
+                return PyIter("values", [[Slice(ref, i, i + k) for i in range(start, end - k + 1)], 0])
+            if last in ("get", "get_mut") and len(args) == 2 and isinstance(args[1], Agg) and args[1].name and \
+                    args[1].name.split("::")[-1] in ("RangeFrom", "Range", "RangeTo"):
+                nm = args[1].name.split("::")[-1]
+                f = args[1].fields
+                lo = f[0].const() if nm in ("RangeFrom", "Range") else 0
+                hi = f[1].const() if nm == "Range" else f[0].const() if nm == "RangeTo" else end - start
+                if lo is None or hi is None:
+                    raise Undecided("slice bounds not constant")
+                if not 0 <= lo <= hi <= end - start:
+                    return mk_variant("std::option::Option", "None", [])
+                return mk_variant("std::option::Option", "Some", [Slice(ref, start + lo, start + hi)])
             if last in ("first", "last"):
                 if end == start:
                     return mk_variant("std::option::Option", "None", [])
                 i = start if last == "first" else end - 1
                 return mk_variant("std::option::Option", "Some", [Ref(ref.frame, ref.local, list(ref.proj) + [{"const_index": i}])])
             return NotImplemented
+        m = re.match(r"std::f(64|32)::<impl f(64|32)>::(powi|powf|sqrt|ln|log2|exp|abs|mul_add|recip)$", name)
+        if m:
+            return Sym((m.group(3),) + tuple(args))
+        if re.match(r"(std|alloc)::vec::Vec::<T(, A)?>::(new|with_capacity)$", name):
+            return Agg("array", None, None, None, [])
+        m = re.match(r"(std|alloc)::vec::Vec::<T(, A)?>::(len|is_empty|push|as_slice|as_mut_slice|capacity)$", name)
+        if m and args:
+            sl = self.slice_of(args[0])
+            if sl is None:
+                return NotImplemented
+            ref, start, end = sl
+            arr = self.project(ref.frame, ref.frame.locals.get(ref.local), ref.proj)
+            fn = m.group(3)
+            if fn == "len":
+                return AI("usize", len(arr.fields), len(arr.fields))
+            if fn == "is_empty":
+                return AI("bool", int(not arr.fields), int(not arr.fields))
+            if fn == "push":
+                arr.fields.append(args[1])
+                return UNIT
+            if fn in ("as_slice", "as_mut_slice"):
+                return Slice(ref, 0, len(arr.fields))
+            return NotImplemented
+        if name in ("std::ops::Deref::deref", "std::ops::DerefMut::deref_mut") and args and fargs and str(fargs[0]).startswith(("std::vec::Vec<", "alloc::vec::Vec<")):
+            sl = self.slice_of(args[0])
+            if sl is not None:
+                return Slice(sl[0], sl[1], sl[2])
+        if name in ("std::ops::Index::index", "std::ops::IndexMut::index_mut") and len(args) == 2 and isinstance(args[1], AI):
+            sl = self.slice_of(args[0])
+            if sl is not None:
+                ref, start, end = sl
+                c = args[1].const()
+                if c is None:
+                    if args[1].lo >= end - start:
+                        raise Panic("index out of bounds")
+                    raise Undecided("index not constant")
+                if not 0 <= c < end - start:
+                    raise Panic("index out of bounds")
+                return Ref(ref.frame, ref.local, list(ref.proj) + [{"const_index": start + c}])
         m = re.match(r"std::slice::ChunksExact(Mut)?::<'a, T>::(remainder|into_remainder)$", name)
         if m:
             it_ = self.as_iter(args[0])
@@ -1323,6 +1427,19 @@ class Interp:
                     n += 1
                     if n > 100000:
                         raise Unsupported("fold over an unbounded iterator")
+            if last == "collect":
+                out = []
+                while True:
+                    try:
+                        out.append(src.step(self, fr, t, depth))
+                    except StopIteration:
+                        return Agg("array", None, None, None, out)
+                    if len(out) > 100000:
+                        raise Unsupported("collect of an unbounded iterator")
+            if last == "take_while":
+                return PyIter("take_while", [src, args[1], False])
+            if last == "map_while":
+                return PyIter("map_while", [src, args[1], False])
             if last == "count":
                 n = 0
                 while True:
